@@ -1103,7 +1103,11 @@ impl<'a> GeneratorState<'a> {
                 // X, Y and function names are identifiers that are not variables
                 match self.compiler_state.variables.get(name).map(|v| v.var_type) {
                     Some(VariableType::CharPtr) => {
-                        self.asm(STA, &ExprType::Absolute(name.clone(), true, 0), pos, false)?;
+                        // Like load() and store(), the access itself is what the programmer asks for
+                        self.protected = true;
+                        let r = self.asm(STA, &ExprType::Absolute(name.clone(), true, 0), pos, false);
+                        self.protected = false;
+                        r?;
                         Ok(())
                     }
                     _ => Err(self
